@@ -623,6 +623,11 @@ impl BitVector {
 
     #[cfg(all(target_arch = "x86_64", feature = "simd"))]
     fn set_range_simd_avx2(&mut self, start: usize, end: usize, value: bool) -> Result<()> {
+        // An empty range touches nothing (and `end - 1` below needs end > 0)
+        if start == end {
+            return Ok(());
+        }
+
         let start_block = start / BITS_PER_BLOCK;
         let end_block = (end - 1) / BITS_PER_BLOCK;
 
